@@ -13,10 +13,10 @@ SUITE=$(cargo nextest run --workspace --no-fail-fast --test-threads 8 --offline 
 echo "suite with patch: $SUITE"
 DEMO=$(ls $OUT/*.rs | head -1)
 cp $DEMO tests/demo_test.rs
-WITH=$(cargo test --offline --test demo_test 2>&1 | grep -E "^test result" | tail -1)
+WITH=$(cargo test --offline $FEATURES --test demo_test 2>&1 | grep -E "^test result" | tail -1)
 echo "demo with patch: $WITH"
 git checkout -q -- src
-WITHOUT=$(cargo test --offline --test demo_test 2>&1 | grep -E "^test result" | tail -1)
+WITHOUT=$(cargo test --offline $FEATURES --test demo_test 2>&1 | grep -E "^test result" | tail -1)
 echo "demo without patch: $WITHOUT"
 rm -f tests/demo_test.rs
 OKS=0
